@@ -25,6 +25,8 @@ def oracle(log):
                 msgs.append('%s asked the block source for memory while capacity_left was %d' % (' '.join(lhs), cap_before))
             if rhs[:1] == ['ok']:
                 live += 1
+            if lhs[0] == 'tn' and rhs[:1] == ['null'] and cap_before is not None and 'ns' in caps and int(lhs[1]) <= int(caps['ns']) and lhs[2] == '1' and cap_before >= int(caps['ns']):
+                msgs.append('try_allocate_node refused although capacity_left reports %d bytes (%d nodes) free: released nodes cannot be had again' % (cap_before, cap_before // int(caps['ns'])))
         elif lhs[0] in ('aa', 'ta') and rhs[:1] == ['ok']:
             live += 1
         elif lhs[0] in ('dn', 'da', 'tdn', 'tda') and rhs[:1] == ['true']:
